@@ -52,8 +52,17 @@ KINDS_B = [
     "a DIAGNOSTICS change: a `verbose` / logging path, warnings for suspicious input, internal sanity assertions of invariants the code relies on, a progress callback or timing hook - all silent and free of side effects by default, results unchanged",
     "a READABILITY change: long functions split into two or three well-named steps, magic column indices replaced by named constants or tuple unpacking, variables renamed to say what they hold, independent statements reordered into a clearer sequence, nested conditionals flattened with early returns - results unchanged",
 ]
+KINDS_C = [
+    "a MEMORY / RESOURCE change: lower the peak memory and the number of copies the anchored code makes, the way a maintainer would after profiling (in-place arithmetic on temporaries the function owns, views instead of copies where nothing is written, `out=` arguments, generators instead of intermediate lists, `del` of large temporaries, one reusable scratch array inside a loop) - results unchanged",
+    "a GENERALISATION: the anchored public functions accept one more form of input that users plausibly pass today and get an obscure error for (a generator / iterator of diagrams, a tuple instead of a list, an array with extra columns, a 1-d or 0-row degenerate array, `None` entries to be skipped, numpy scalars for integer options), normalised on entry so that every input that worked before gives exactly the same result",
+    "an API-EVOLUTION change: a parameter or an option value gets a better name with a backwards-compatible alias (old spelling still accepted, a DeprecationWarning, the new spelling preferred when both are given), or a positional parameter becomes keyword-preferred with a shim - every existing call keeps its result",
+    "a TESTABILITY refactor (dependency injection): something hard-wired in the anchored code - the assignment / matching solver, the random generator, the clock, the plotting axes factory, the kernel or weight function - becomes an optional parameter that defaults to today's choice, and the pure numerical core is separated from its I/O shell; results with the defaults unchanged",
+    "a CONSISTENCY change between sibling functions / methods of the anchored code: the same validation, the same empty-input behaviour, the same container type for results, the same warning text, obtained by moving the shared behaviour to one place - where the siblings genuinely differ today each keeps its own behaviour (no result changes)",
+]
 if letter >= "Q":
     KINDS = KINDS_B
+if letter >= "T":
+    KINDS = KINDS_C
 
 for k, pr in enumerate(props):
     pid = pr["id"]
@@ -69,6 +78,8 @@ for k, pr in enumerate(props):
     earlier = "\n".join("    " + x for x in slip_lines(pid)) or "    (none)"
     invites = ("(a cache keyed by too little, a hoisted value that depended on the loop after all, a validation that rewrites the caller's array or silently changes dtype, a shared helper that ignores the one thing that differed, a regrouped expression that lost a term or a sign for one branch, a short-circuit taken in a case where it is not valid, a block boundary off by one, a pre-allocated buffer reused across calls)"
                if letter < "Q" else
+               "(an in-place operation that reaches the caller's array or the object's stored state through a view, a generator consumed twice or measured with len(), a view returned where a copy was promised, the old alias silently winning over the new name or a sentinel compared with `==` against an array, an injected default created once at import time and shared by all calls, a local generator or clock replacing the global one, a validation moved below the first use of what it validates, the shared helper applying one sibling's convention to the other, a scratch array that still holds the previous iteration's tail)"
+               if letter >= "T" else
                "(the new parameter not passed on along one of two call paths or shadowing an existing name, a default evaluated once and shared, the corner-case branch taken for inputs that are not the corner case, a 'modern equivalent' whose defaults or argument order differ from the old call, an assertion or log statement that consumes an iterator / mutates / reorders what it inspects, a step extracted into a helper that returns before the last statement of the old block, a renamed variable that still exists under its old name with a stale value, two 'independent' statements that were not independent)")
     prompt = f"""You are helping test verification tooling for the Python library scikit-tda/persim (persistence-diagram tools).
 You have your OWN scratch git worktree of the repository at /tmp/wt_{hid} (work ONLY there and in /tmp/ref_{hid}; never touch /repo or /verif, do not read anything under /verif, and do NOT use `git stash` - the stash is shared between worktrees; to undo use `git -C /tmp/wt_{hid} checkout -- .` or `git apply -R`).
